@@ -33,6 +33,17 @@ type Fn struct {
 	Pkg    *packages.Package
 	CFG    *cfg.CFG
 	Lits   []*Fn
+	// set on helper-transparent views (inline.go)
+	Orig    *Fn
+	Inlined []string
+}
+
+// orig returns the underlying declared function of a view.
+func orig(fn *Fn) *Fn {
+	if fn != nil && fn.Orig != nil {
+		return fn.Orig
+	}
+	return fn
 }
 
 func (f *Fn) Root() *Fn {
@@ -57,6 +68,9 @@ type Prog struct {
 	SSAPkgs map[string]*ssa.Package
 	Tags    string
 	Goarch  string
+	siteCount map[*types.Func]int
+	inlViews  map[*Fn]*Fn
+	alias     map[types.Object]aliasTo
 }
 
 type infraError struct{ msg string }
@@ -395,6 +409,7 @@ func (p *Prog) FuncOpt(rel, recv, name string) *Fn {
 
 // SSAFunc returns the SSA function of a source function (declaration or literal).
 func (p *Prog) SSAFunc(fn *Fn) *ssa.Function {
+	fn = orig(fn)
 	root := fn.Root()
 	if root.Obj == nil {
 		return nil
@@ -512,6 +527,9 @@ func (p *Prog) PathKey(fn *Fn, e ast.Expr) (root types.Object, key string, ok bo
 	case *ast.Ident:
 		o := p.ObjOf(fn, x)
 		if v, isVar := o.(*types.Var); isVar {
+			if a, ok := p.alias[v]; ok && fn.Orig != nil {
+				return a.root, a.key, true // helper parameter seen through a helper-transparent view
+			}
 			return v, p.ID(v), true
 		}
 		return nil, "", false
